@@ -28,7 +28,12 @@ PY
 )
 still=""
 for t in $missing; do
-  /venv/bin/python -m pytest -q -p no:cacheprovider --timeout=900 "$t" >/dev/null 2>&1 || still="$still $t"
+  ok1=1
+  for try in 1 2 3; do
+    if /venv/bin/python -m pytest -q -p no:cacheprovider --timeout=900 "$t" >/dev/null 2>&1; then ok1=0; break; fi
+    sleep 5
+  done
+  [ $ok1 = 0 ] || still="$still $t"
 done
 nstill=$(echo $still | wc -w)
 head=$(git -C /repo rev-parse --short HEAD)
